@@ -366,6 +366,43 @@ def run(ctx):
 MUTATORS = re.compile(r"::(retain|retain_mut|dedup\w*|remove|swap_remove|truncate|drain|pop|clear|split_off|sort\w*|reverse|rotate\w*|swap|insert|push|extend\w*|append)$")
 
 
+def suppression_before_store(ctx, rid):
+    """a suppressed match is stored in neither list: in CombinedScan::scan every place that keeps the result of `match_node` — the
+    `matches` of announce mode and the `diffs` of apply mode alike — lies on the not-suppressed side of the `suppressed_id` test."""
+    from ..query import deep_roots, TRANSPARENT, option_arms
+    prog = ctx.prog
+    sc0 = ctx.anchor(rid, r"^ast_grep_config::combined::CombinedScan::<'r, L>::scan$")
+    if not sc0:
+        return
+    sc = prog.inlined(sc0, keep=("suppressed_id",))
+    sup = [c for c in sc.calls if c.name == "suppressed_id" and c.bb in sc.live_blocks]
+    ctx.floor(rid, "suppressed_id tests in CombinedScan::scan", len(sup), 1)
+
+    def value_roots(op, depth=0):
+        out = []
+        for o in sc.trace_operand(op):
+            if o.kind == "agg" and depth < 3:
+                for sub in o.ref[2][2]:
+                    out += value_roots(sub, depth + 1)
+            else:
+                out += deep_roots(prog, sc, op, TRANSPARENT) if depth == 0 else [o]
+        return out
+    stores = []
+    for c in sc.calls:
+        if c.bb not in sc.live_blocks or c.name not in ("push", "insert", "extend", "push_back") or len(c.args) < 2:
+            continue
+        if any(o.kind == "call" and o.ref.name in ("match_node", "match_node_with_env") for a in c.args[1:] for o in value_roots(a)):
+            stores.append(c)
+    ctx.floor(rid, "places in CombinedScan::scan that keep a match", len(stores), 2)
+    none_side = [b for c in sup for b in option_arms(sc, c)["none"]]
+    for n, c in enumerate(stores):
+        ok = any(sc.dominates(b, c.bb) or b == c.bb for b in none_side)
+        ctx.ob(rid, "CombinedScan::scan/store#%d of a match only when it is not suppressed" % n, ok,
+               "dominated by the `None` side of suppressed_id" if ok else
+               "a match is kept (%s at %s) on a path that did not ask whether an ast-grep-ignore comment suppresses it: -U/-i rewrite code whose finding no other "
+               "front end reports, and the comment counts as unused" % (c.name, sc.loc(c.line)), where=sc0.loc(c.line))
+
+
 def r3(ctx):
     import json
     from .c17 import producer_roots
@@ -401,6 +438,7 @@ def r3(ctx):
         ctx.ob("R3", "scan evaluates alike in both modes/" + k, o["ok"], o["detail"] + ("" if o["ok"] else
                " — in apply mode (separate_fix) rules are skipped that announce mode evaluates: their suppression comments count as unused and -U deletes them, edits never announced by --json"), where=o.get("where"))
     ctx.floor("R3", "CombinedScan::scan loop obligations shared with C01 R6", n_scan, 5)
+    suppression_before_store(ctx, "R3")
     # uses of needs_interactive in producers
     n_use = 0
     for fid in sorted(P):
